@@ -134,6 +134,7 @@ class Pool:
         from . import wcsutil
         rnd = random.Random(seed)
         self.rnd = rnd
+        self.shared_dir = os.path.join(os.environ.get('VERIF_WORK') or os.path.join(os.path.dirname(os.path.dirname(os.path.abspath(__file__))), '.work'), f'c13shared_{os.getpid()}')
         self.wcs = wcsutil.make_wcs(rnd.choice([1e-3, 2e-4]), rnd.choice([(1, 0, 1), (3, 4, 5), (-12, 5, 13)]), 1,
                                     rnd.choice(['icrs', 'fk5', 'galactic']), rnd.choice(['TAN', 'SIN']), (40.0, 30.0), (10.0, 10.0))
         self.image = np.arange(30 * 40, dtype=float).reshape(30, 40)
@@ -225,9 +226,20 @@ class Pool:
             'fits_table': tbl,
         }
 
+    def wcs_behaviour(self):
+        """What the caller's WCS object does, not only what its header says: images of fixed sky positions, among them positions on the far
+        side of the sphere (outside the domain of the projection: NaN as long as the object checks its bounds)."""
+        ra0, dec0 = (float(v) for v in self.wcs.wcs.crval)
+        world = np.array([[ra0, dec0], [ra0 + 0.01, dec0 - 0.01], [ra0 + 180.0, -dec0], [ra0 + 130.0, dec0 / 2]])
+        try:
+            pixv = self.wcs.wcs.s2p(world, 0)['pixcrd']
+        except Exception as ex:  # noqa
+            return 'raised ' + type(ex).__name__
+        return repr(np.round(pixv, 6).tolist())
+
     def fingerprint(self):
         return (tuple((k, fp(v)) for k, v in sorted(self.objs.items())), fp(self.parts), fp(self.other_pix), fp(self.other_sky),
-                fp(self.image), fp(self.pix), fp(self.skyc), h(self.wcs.to_header_string()), fp(self.rot_angle), fp(self.rot_center), fp(self.foreign['fits_table']),
+                fp(self.image), fp(self.pix), fp(self.skyc), h(self.wcs.to_header_string()), self.wcs_behaviour(), fp(self.rot_angle), fp(self.rot_center), fp(self.foreign['fits_table']),
                 fp(self.pix_u), fp(self.pix_i), self.header.tostring(sep='|'))
 
     # ---- operations -------------------------------------------------------------------------------
@@ -324,6 +336,20 @@ class Pool:
             finally:
                 import shutil
                 shutil.rmtree(d, ignore_errors=True)
+        if op == 'reread':
+            # written under ONE name that every such call re-uses (the extension names no format, the format is given on writing and
+            # found from the content on reading): what comes back depends on what the file holds now, not on what it held before
+            fmt = FORMATS[k % 3]
+            os.makedirs(self.shared_dir, exist_ok=True)
+            path = os.path.join(self.shared_dir, 'regions.dat')
+            import warnings
+            try:
+                with warnings.catch_warnings():
+                    warnings.simplefilter('ignore')
+                    obj.write(path, format=fmt, overwrite=True)
+                    return [fmt, Regions.read(path)]
+            except (ValueError, TypeError, KeyError, AttributeError, OSError) as ex:
+                return ex
         if op == 'parse':
             fmt = FORMATS[k % 3]
             ser = self._ser(obj, fmt, k)
